@@ -531,13 +531,40 @@ def ao1(ctx, R):
         return
     # _read_file -> values bound to those parameters
     rf = prog.func("tdms.TdmsFile._read_file")
-    ctor = [c for c in walk_body(rf.node) if isinstance(c, ast.Call) and isinstance(c.func, (ast.Name, ast.Attribute)) and prog.resolve_class(rf.module, c.func) is cls]
+    # the construction site: in _read_file, or in a helper method it calls from inside its loop over the objects (the helper's
+    # parameters are then replaced by _read_file's arguments)
+    from .sem import calls_to
+    top = rf
+    holder, ctor = rf, [c for c in walk_body(rf.node) if isinstance(c, ast.Call) and isinstance(c.func, (ast.Name, ast.Attribute)) and prog.resolve_class(rf.module, c.func) is cls]
+    if not ctor:
+        for g in sorted(rf.cls.methods.values(), key=lambda f: f.qual):
+            sites = [c for c in walk_body(g.node) if isinstance(c, ast.Call) and isinstance(c.func, (ast.Name, ast.Attribute)) and prog.resolve_class(g.module, c.func) is cls]
+            if sites and g is not rf and calls_to(prog, rf, g.qual, rf.cls):
+                holder, ctor = g, sites
     if len(ctor) != 1:
         raise AnchorMissing("tdms.TdmsFile._read_file: one TdmsChannel(...) construction")
     c = ctor[0]
-    sr = Sym(prog, rf, rf.cls)
-    env, _g = sr.env_at(c)
-    loops = env.get("<iter>", ())
+    st = Sym(prog, top, top.cls)
+    if holder is rf:
+        sr = st
+        env, _g = sr.env_at(c)
+        loops = env.get("<iter>", ())
+    else:
+        cc = calls_to(prog, top, holder.qual, top.cls)[0]
+        env_top, _g = st.env_at(cc)
+        loops = env_top.get("<iter>", ())
+        bound = {}
+        for p_ in holder.params:
+            if p_ not in ("self", "cls"):
+                a_ = call_arg(prog, cc, holder, p_, st, env_top)
+                if a_ is not None:
+                    bound[p_] = a_
+        sr = Sym(prog, holder, holder.cls)
+        env, _g = sr.env_at(c, bound=bound)
+        for k_, v_ in env_top.items():
+            if k_.startswith("self.") and k_ not in env:
+                env[k_] = v_
+        rf = holder
     if not loops:
         raise AnchorMissing("tdms.TdmsFile._read_file: TdmsChannel constructed inside the loop over the objects")
     it, bv = loops[-1]
